@@ -14,6 +14,9 @@ import (
 	"strings"
 	"time"
 
+	"github.com/sirupsen/logrus"
+	"github.com/zitadel/logging"
+
 	"verif/harness/core"
 	"verif/harness/env"
 	"verif/harness/spsim"
@@ -80,27 +83,33 @@ func c14Run(r *core.Run, idx int, rng *rand.Rand) {
 		place, endpoint string
 		valid           bool
 		keyFault        bool // the key storage fails while the request is served
+		debugLog        bool // the process-wide log level is "trace" while the request is served
 	}
 	var variants []variant
 	for _, ep := range []string{"sso_query", "sso_form", "logout_query", "logout_form"} {
 		for _, pl := range []string{"comment", "text", "attribute", "after_root"} {
-			variants = append(variants, variant{pl, ep, true, false})
+			variants = append(variants, variant{pl, ep, true, false, false})
 		}
 	}
-	variants = append(variants, variant{"comment", "sso_query", false, false}, variant{"text", "logout_query", false, false}, variant{"garbage", "sso_query", false, false}, variant{"garbage", "logout_form", false, false})
+	variants = append(variants, variant{"comment", "sso_query", false, false, false}, variant{"text", "logout_query", false, false, false}, variant{"garbage", "sso_query", false, false, false}, variant{"garbage", "logout_form", false, false, false})
 	// padding in front of the root element; and bombs that arrive while the key storage is failing (error paths
 	// look at the message too)
-	variants = append(variants, variant{"before_root", "sso_query", true, false}, variant{"before_root", "logout_form", true, false},
-		variant{"before_root", "sso_query", true, true}, variant{"attribute", "sso_form", true, true}, variant{"text", "logout_query", true, true}, variant{"comment/zlib", "sso_query", true, true})
+	variants = append(variants, variant{"before_root", "sso_query", true, false, false}, variant{"before_root", "logout_form", true, false, false},
+		variant{"before_root", "sso_query", true, true, false}, variant{"attribute", "sso_form", true, true, false}, variant{"text", "logout_query", true, true, false}, variant{"comment/zlib", "sso_query", true, true, false})
 	// other containers around the same DEFLATE data (what zlib / gzip producing peers send)
-	variants = append(variants, variant{"comment/zlib", "sso_query", true, false}, variant{"after_root/zlib", "logout_form", true, false}, variant{"text/gzip", "sso_form", true, false}, variant{"comment/gzip", "logout_query", true, false})
+	variants = append(variants, variant{"comment/zlib", "sso_query", true, false, false}, variant{"after_root/zlib", "logout_form", true, false, false}, variant{"text/gzip", "sso_form", true, false, false}, variant{"comment/gzip", "logout_query", true, false, false})
+	// verbose logging switched on at run time (what gets logged about a request must be bounded too); other methods
+	// than GET and POST on the same routes (the form parser reads the query for all of them, the body for PUT / PATCH)
+	variants = append(variants, variant{"comment", "sso_query", true, false, true}, variant{"text", "logout_form", true, false, true}, variant{"attribute/zlib", "sso_form", true, false, true})
+	variants = append(variants, variant{"comment", "sso_query:HEAD", true, false, false}, variant{"text", "sso_form:PUT", true, false, false}, variant{"attribute", "sso_form:PATCH", true, false, false},
+		variant{"comment", "logout_query:DELETE", true, false, false}, variant{"after_root", "logout_form:PUT", true, false, false})
 	if !thorough {
 		// quick: every endpoint with two placements, every placement on two endpoints
 		keep := map[string]bool{"sso_query/comment": true, "sso_query/attribute": true, "sso_form/text": true, "sso_form/after_root": true,
 			"logout_query/comment": true, "logout_query/text": true, "logout_form/attribute": true, "logout_form/after_root": true}
 		var v2 []variant
 		for _, v := range variants {
-			if keep[v.endpoint+"/"+v.place] || !v.valid || strings.Contains(v.place, "/") || v.keyFault || v.place == "before_root" {
+			if keep[v.endpoint+"/"+v.place] || !v.valid || strings.Contains(v.place, "/") || v.keyFault || v.debugLog || strings.Contains(v.endpoint, ":") || v.place == "before_root" {
 				v2 = append(v2, v)
 			}
 		}
@@ -164,7 +173,11 @@ func c14Run(r *core.Run, idx int, rng *rand.Rand) {
 			}
 			param := bombIn(container, prefix, suffix, pad, size)
 			var rq env.Req
-			switch v.endpoint {
+			epName, method := v.endpoint, ""
+			if i := strings.IndexByte(epName, ':'); i >= 0 {
+				epName, method = epName[:i], epName[i+1:]
+			}
+			switch epName {
 			case "sso_query":
 				rq = env.Req{Path: env.PathSSO, Query: "SAMLRequest=" + url.QueryEscape(param)}
 			case "sso_form":
@@ -173,6 +186,12 @@ func c14Run(r *core.Run, idx int, rng *rand.Rand) {
 				rq = env.Req{Path: env.PathSLO, Query: "SAMLRequest=" + url.QueryEscape(param)}
 			case "logout_form":
 				rq = env.Req{Method: "POST", Path: env.PathSLO, Body: "SAMLEncoding=" + url.QueryEscape(spsim.EncDeflate) + "&SAMLRequest=" + url.QueryEscape(param)}
+			}
+			if method != "" {
+				rq.Method = method
+			}
+			if v.debugLog {
+				logging.SetLevel(logrus.TraceLevel)
 			}
 			e.W.Plan = nil
 			if v.keyFault {
@@ -190,11 +209,18 @@ func c14Run(r *core.Run, idx int, rng *rand.Rand) {
 			call := e.Do(rq)
 			ms := time.Since(t0).Milliseconds()
 			runtime.ReadMemStats(&m1)
+			if v.debugLog {
+				logging.SetLevel(logrus.InfoLevel)
+			}
 			res := c14Result{Size: size, Place: v.place, Endpoint: v.endpoint, Valid: v.valid, Param: len(param), Delta: m1.TotalAlloc - m0.TotalAlloc, HeapSys: m1.HeapSys, Status: call.D.Status, Millis: ms}
 			res.Accepted = call.Accepted() || (call.D.Msg != nil && call.D.Success())
 			results = append(results, res)
 			deltas[size] = res.Delta
 			class := fmt.Sprintf("%s|%s|valid=%v|%dMiB", v.endpoint, v.place, v.valid, size>>20)
+			if v.debugLog {
+				class += "|verbose_logging"
+				r.Count("payloads_with_verbose_logging", 1)
+			}
 			if v.keyFault {
 				class += "|key_storage_fault"
 				r.Count("payloads_during_key_storage_fault", 1)
@@ -244,9 +270,9 @@ func init() {
 		TimeoutQuick: 10 * time.Minute, TimeoutThorough: 40 * time.Minute,
 		Build: func(c *Ctx) []core.Workload {
 			r := c.Run
-			r.Rule = "DEFLATE payloads inflating to 1, 4, 16, 36, 64, 256 MiB (thorough: + 1 GiB) with the padding in a comment, in text, in an attribute value, in front of or after the root element or as pure garbage, also while the key storage is failing, as raw DEFLATE and inside zlib / gzip containers, inside otherwise valid and invalid AuthnRequests / LogoutRequests, sent to the SSO endpoint by query and by form and to the logout endpoint by query and by form; strictly sequential in a dedicated child process. Monitor: runtime.MemStats.TotalAlloc delta around one ServeHTTP (ceiling 512 MiB), flatness (256 MiB / 1 GiB bombs may cost at most 1.5 x the 64 MiB bomb + 16 MiB), payloads inflating to >= 32 MiB not accepted. Sizes ascend and the run stops at the first ceiling/flatness violation. Distinct = (endpoint, placement, validity, size)."
+			r.Rule = "DEFLATE payloads inflating to 1, 4, 16, 36, 64, 256 MiB (thorough: + 1 GiB) with the padding in a comment, in text, in an attribute value, in front of or after the root element or as pure garbage, also while the key storage is failing, while the log level is switched to trace, and with the methods HEAD / PUT / PATCH / DELETE, as raw DEFLATE and inside zlib / gzip containers, inside otherwise valid and invalid AuthnRequests / LogoutRequests, sent to the SSO endpoint by query and by form and to the logout endpoint by query and by form; strictly sequential in a dedicated child process. Monitor: runtime.MemStats.TotalAlloc delta around one ServeHTTP (ceiling 512 MiB), flatness (256 MiB / 1 GiB bombs may cost at most 1.5 x the 64 MiB bomb + 16 MiB), payloads inflating to >= 32 MiB not accepted. Sizes ascend and the run stops at the first ceiling/flatness violation. Distinct = (endpoint, placement, validity, size)."
 			r.Assume("TotalAlloc (cumulative allocation) is measured, not resident memory; thresholds are loose so that any reasonable cap (8-32 MiB) passes")
-			r.Require("payloads", int64(c.Pick(80, 150)))
+			r.Require("payloads", int64(c.Pick(100, 190)))
 			r.Require("payloads_during_key_storage_fault", 10)
 			r.Require("flatness_comparisons", int64(c.Pick(10, 40)))
 			return []core.Workload{{Name: "bombs", N: 1, Workers: 1, Fn: c14Run}}
